@@ -8,6 +8,8 @@ _calculate_weights/sample — each from an ARBITRARY state satisfying the repres
 """
 from __future__ import annotations
 
+from fractions import Fraction
+
 import torch
 from tensordict import TensorDict
 
@@ -245,6 +247,12 @@ class PerUpdate(Case):
         pp = [val(prios, j) for j in range(k)]
         for x in ii:
             v.assume(conj(x >= 0, x < s.size))
+        # wishes for replay models (x**a is uninterpreted for the solver: a counterexample only reproduces with the real power
+        # where the 1e-5 floor on the priority matters and alpha is not 1)
+        for p_ in pp:
+            v.prefer(conj(p_ >= 0, p_ < Fraction(1, 10 ** 6)))
+        if isinstance(getattr(buf, "alpha", None), Sym):
+            v.prefer(neg(eq(buf.alpha, 1)))
         buf.update_priorities(idxs, prios)
         clipped = [smax(p, 1e-5) for p in pp]
         sl, ml = s.live_leaves()
@@ -280,9 +288,9 @@ class PerSample(Case):
     assumptions = (INV_TEXT, "0 <= beta <= 1")
     site = "PrioritizedReplayBuffer.sample"
 
-    def __init__(self, N, B, alpha_kind="sym"):
-        self.N, self.B, self.ak = N, B, alpha_kind
-        self.name = f"per-sample-N{N}-B{B}"
+    def __init__(self, N, B, alpha_kind="sym", via_sampler=False):
+        self.N, self.B, self.ak, self.via_sampler = N, B, alpha_kind, via_sampler
+        self.name = f"per-sample-N{N}-B{B}" + ("-through-Sampler" if via_sampler else "")
         self.bounds = {"capacity": N, "batch": B, "symbolic": "count (size), every leaf (priority^alpha), the uniform variates, beta, contents"}
 
     def run(self, v):
@@ -310,7 +318,11 @@ class PerSample(Case):
         if v.mode != "real":
             ov["zeros"] = lambda *size, dtype=torch.float32, device=None: ShimTorch.symzeros(*size, dtype=dtype)
         with patched((rb_mod, "torch", ShimTorch(ov))):
-            out = buf.sample(B, beta)
+            if self.via_sampler:
+                from agilerl.components.sampler import Sampler      # the path train_off_policy takes
+                out = Sampler(memory=buf).sample(B, beta)
+            else:
+                out = buf.sample(B, beta)
         obs = []
         live = s.leaves[: s.size]
         total = direct_sum(live)
@@ -340,7 +352,7 @@ def cases(tier):
     cs = [SegTree(4, "sum"), SegTree(4, "min"), SegTree(2, "sum"), SegTree(8, "sum"),
           PerAdd(3, 1), PerAdd(3, 2), PerAdd(4, 3, "one"), PerAdd(5, 2),
           PerUpdate(3, 2), PerUpdate(4, 2, "one"), PerUpdate(2, 3),
-          PerSample(3, 2), PerSample(4, 2), PerSample(2, 1)]
+          PerSample(3, 2), PerSample(4, 2), PerSample(2, 1), PerSample(3, 1, via_sampler=True)]
     if tier == "thorough":
         cs += [SegTree(8, "min"), SegTree(16, "sum"), PerAdd(6, 4), PerAdd(8, 3), PerAdd(7, 7, "one"),
                PerUpdate(4, 3), PerUpdate(6, 2), PerSample(5, 1)]
